@@ -21,19 +21,27 @@ CHECK_CORR = 'check_corr'
 CHECK_SPEC = 'check_spec'
 SHARD = 400
 RULE = ('place cases: memory layout (slot hashes, reference counts, capacities, total capacity) + new segment hashes and '
-        'lengths.  quick: all layouts with <= 2 slots over hashes {1,2,3} x capacities {192,208,384} x refcounts {0,1,2} '
-        'sampled, random layouts with <= 7 slots / <= 5 new segments (duplicates, already-known hashes, lengths equal to / '
-        'smaller / larger than free capacities, total capacity on both sides of the two RuntimeError thresholds), larger '
-        'random layouts (<= 30 slots, <= 12 new), a malformed stream (zero / negative lengths and capacities, negative '
-        'reference counts, negative total capacity) and the driver\'s own dtypes (uint32 capacities).  thorough: the '
-        'small scope (<= 4 slots x <= 3 new) enumerated and sampled.  Non-trivial = at least one slot, one unknown new '
-        'segment and a returned decision or a Fragmentation refusal.')
+        'lengths, run through the real find_place_for_segments_in_memory.  Small scope = slots over hashes {1,2,3} x '
+        'capacities {192,208,384} x refcounts {0,1,2}, new segments over hashes {1,2,3,9} x lengths {192,208,384}, one '
+        'total capacity per layout drawn from the values around the two RuntimeError thresholds.  quick: the scopes '
+        '(slots,new) up to (4,3) sampled uniformly (200-400 each); thorough: (0,1..3) (1,1..3) (2,1) (2,2) (3,1) complete, '
+        'the others sampled (50-100 k each).  Plus random layouts with <= 7 slots / <= 5 new segments (duplicates, known '
+        'hashes, lengths equal to / 16 below / above free capacities), larger random layouts (<= 30 slots, <= 12 new), a '
+        'malformed stream (zero / negative lengths and capacities, negative reference counts, negative total capacity; '
+        'compared with the model, the specification applies only when all reference counts are >= 0) and the driver\'s '
+        'dtypes (uint32 capacities, incl. total capacity below the reserved capacity).  hist cases: random histories of '
+        '<= 12 operations (upload / forced upload / free_program / remove / cleanup / clear; programs share and re-use '
+        'segment hashes; total capacity 800..100000) run through the real TaborChannelPair bookkeeping against a fake '
+        'instrument; observation after every operation.  Non-trivial = place case with a slot, an unknown segment and a '
+        'decision or Fragmentation refusal; history that reaches >= 3 slots with a known program.')
 TRUSTED = [
     'Coq 8.16.1 kernel + vm_compute (no native_compute)',
     'numpy primitives (argsort kind=stable, searchsorted, flatnonzero, argmax, boolean/fancy indexing, a[idx] += 1) '
     'behave as their list models in coq/C19/Model.v; tied only by the correspondence check',
     'harness: generators, exact integer printing, classification of the two RuntimeErrors by message text',
-    'driver part (upload/free/cleanup bookkeeping of hardware/awgs/tabor.py): see MANIFEST level_note',
+    'driver part: hardware/awgs/tabor.py is imported against an empty stand-in for tabor_control and run against '
+    'harness/props/c19_driver.py::FakeDevice (abstract slot -> content memory interpreting :TRAC:SEL/:TRAC:DATA/TRAC:DEL); '
+    'TaborProgram / make_compatible / make_combined_wave are replaced by stand-ins; no real instrument or simulator',
 ]
 ASSUMPTIONS = [
     'the three memory arrays have equal length and the two new-segment arrays have equal length (maintained by the driver; '
@@ -137,9 +145,9 @@ def gen_cases(rng, tier, ctx):
     # ---- small scope
     # (slots, new segments, number of layouts drawn from that scope; None = all of them)
     if thorough:
-        plan = [(0, 1, None), (0, 2, None), (0, 3, None), (1, 1, None), (1, 2, None), (1, 3, 20000), (2, 1, None),
-                (2, 2, 20000), (2, 3, 25000), (3, 1, 40000), (3, 2, 35000), (3, 3, 35000), (4, 1, 60000), (4, 2, 50000),
-                (4, 3, 60000)]
+        plan = [(0, 1, None), (0, 2, None), (0, 3, None), (1, 1, None), (1, 2, None), (1, 3, None), (2, 1, None),
+                (2, 2, None), (2, 3, 50000), (3, 1, None), (3, 2, 60000), (3, 3, 60000), (4, 1, 80000), (4, 2, 80000),
+                (4, 3, 100000)]
     else:
         plan = [(0, 1, None), (0, 2, 40), (1, 1, None), (1, 2, 200), (2, 1, 400), (2, 2, 200), (3, 2, 200), (3, 3, 200),
                 (4, 2, 200), (4, 3, 250)]
@@ -573,8 +581,12 @@ MANIFEST = {
                   'clauses (reuse only on equal hash; overwritten slots unreferenced, large enough, pairwise distinct; '
                   'appended segments fit behind the last used slot; every segment accounted for exactly once).  The model '
                   'is tied to the code by an exact correspondence check against the real function.',
-    'level_note': 'The history theorem is about a hand-written model of the driver bookkeeping '
-                  '(hardware/awgs/tabor.py is not importable offline): MODEL ONLY.',
+    'level_note': 'History theorem (every known program\'s slots hold its own data and stay referenced, over all '
+                  'upload/free/remove/cleanup/clear histories) is proved about a hand-written model of the driver '
+                  'bookkeeping; hardware/awgs/tabor.py needs tabor_control, so the model is tied to it only by running the '
+                  'real class against a fake instrument with sampling replaced by stand-ins.  Capacity over-commitment '
+                  'after upload(force=True) is a listed known finding (guarded theorem).  Trusted: Coq kernel, numpy '
+                  'primitives as list models, harness, fake instrument.',
     'technique': 'Coq proof (loop invariants over list models of the numpy code) + correspondence check',
     'design_ref': 'DESIGN.md §5 C19',
 }
